@@ -112,6 +112,22 @@ def _info(b):
     return _INFO[b]
 
 
+# race-directed sweep (family `race`): sets of site rules over the points
+# where two threads touch the same field of the connection state, of the
+# session or of the compression object (see _threads.race_candidates)
+_RACE = {}
+
+
+def _race(b, tier):
+    key = (b, tier)
+    if key not in _RACE:
+        base = BASES[b]
+        cands = T.race_candidates(base)
+        depth, cap = (2, 1500) if tier == 'quick' else (3, 100000)
+        _RACE[key] = (cands, T.race_schedules(base, cands, depth, cap))
+    return _RACE[key]
+
+
 FULL2 = ['vs_auto_ping', 'text_vs_text', 'big_vs_small']      # bases whose two-pre-emption sweep is complete (thorough)
 
 
@@ -134,6 +150,8 @@ def plan(tier):
                 ('stall', 40000),
                 ('freeze', len(BASES) * FSLOT),
                 ('cold_start', 2 * 900),
+                ('race', sum(len(_race(b, tier)[1])
+                             for b in range(len(BASES)))),
                 ('sweep2', 60000),
                 ('random', 150000),
                 ('big', 3000),
@@ -144,6 +162,7 @@ def plan(tier):
             ('stall', 1500),
             ('freeze', len(BASES) * FSLOT),
             ('cold_start', 2 * 900),
+            ('race', sum(len(_race(b, tier)[1]) for b in range(len(BASES)))),
             ('sweep2', 3000 if q else 200000),
             ('random', 2500 if q else 150000),
             ('big', 60 if q else 3000),
@@ -184,6 +203,15 @@ def make_case(family, i, rng, tier):
                 return None
             case['schedule'] = {'kind': 'preempt',
                                 'points': [[1, 1], [step, tid]]}
+        return case
+    if family == 'race':
+        for b in range(len(BASES)):
+            scheds = _race(b, tier)[1]
+            if i < len(scheds):
+                break
+            i -= len(scheds)
+        case = copy.deepcopy(BASES[b])
+        case['schedule'] = copy.deepcopy(scheds[i])
         return case
     if family == 'base_random':
         # seeded random-walk / PCT schedules over the hand-written bases
